@@ -210,6 +210,11 @@ pub fn run(args: &Args) -> (Meta, Stats) {
             }
             check(&input, &mut rng, st, false);
             st.count("random_cases");
+            if rng.chance(1, 150) {
+                let big = crate::big::big_xml(&mut rng);
+                check(&big, &mut rng, st, false);
+                st.count("scaled_up_cases");
+            }
         }
     });
     let mut m = super::meta(
